@@ -308,8 +308,14 @@ class Switch(Generic[R], GenerativeFunction[R]):
         if Diff.tree_tangent(idx_diff) == UnknownChange:
             weight -= trace.get_score()
 
-        # TODO: this is totally wrong, fix in future PR.
-        bwd_request: Update = rets[0][3]
+        if Diff.tree_tangent(idx_diff) == NoChange:
+            # The backward constraint of the branch that ran (the others are placeholders).
+            bwd_request = Update(
+                ChoiceMap.switch(new_idx, [bwd.constraint for _, _, _, bwd in rets])
+            )
+        else:
+            # The branch was run afresh: going back means re-installing the old choices.
+            bwd_request = Update(trace.get_choices())
 
         return (
             SwitchTrace(self, primals, subtraces, retval, score),
